@@ -215,6 +215,48 @@ def cut(ctx, roots, nodes, prefix="cut"):
     return subst(ctx, roots, mapping), mapping, back
 
 
+def fresh_fork(fn, timeout=600):
+    """run fn() in a forked child of the current process and return its (picklable) result: state that a library keeps between
+    calls (memoised limits, caches, singletons) set inside fn does not reach the caller, and the child starts from the caller's
+    state at the time of the call - so histories can be compared with a run that has no history"""
+    import os
+    import pickle
+    import select
+
+    r, w = os.pipe()
+    pid = os.fork()
+    if pid == 0:
+        try:
+            os.close(r)
+            try:
+                out = ("ok", fn())
+            except BaseException as e:  # noqa
+                out = ("err", f"{type(e).__name__}: {e}")
+            with os.fdopen(w, "wb") as f:
+                pickle.dump(out, f)
+        finally:
+            os._exit(0)
+    os.close(w)
+    buf = b""
+    with os.fdopen(r, "rb") as f:
+        while True:
+            ready, _, _ = select.select([f], [], [], timeout)
+            if not ready:
+                os.kill(pid, 9)
+                break
+            chunk = f.read()
+            buf += chunk
+            if not chunk or True:
+                break
+    os.waitpid(pid, 0)
+    if not buf:
+        raise RuntimeError("forked run produced no result")
+    kind, val = pickle.loads(buf)
+    if kind == "err":
+        raise RuntimeError("forked run failed: " + val)
+    return val
+
+
 def find_nodes(roots, pred):
     return [t for t in tm.topo(list(roots)) if pred(t)]
 
